@@ -395,7 +395,13 @@ class Ctx:
         'vfit': ('GenV', ['t_weighted_optimize', 't_optimize']),
         'vaff': ('GenV', ['t_get_transformation']),
         'fm': ('GenFM', ['t_loop']),
+        # property clauses about the kernels as compiled from source (compose bridges with the model's theorems)
+        'ksrccrop': ('GenK', []),
+        'ksrceval': ('GenK', []),
+        'kblocks': ('GenK', []),
+        'vsrc': ('GenV', []),
     }
+    TOPIC_DEPS = {'ksrccrop': ['kcrop'], 'ksrceval': ['k'], 'kblocks': ['blocks', 'kcalls'], 'vsrc': ['vmatch']}
 
     def check_generated(self, topics):
         """regenerate Gen.v / GenQ.v / GenK.v from /repo's current source, compile them and re-prove the bridge lemmas of the
@@ -409,6 +415,12 @@ class Ctx:
         import translate_fm
         gendir = os.path.join(self.rundir, 'gen')
         os.makedirs(gendir, exist_ok=True)
+        expanded = []
+        for t in topics:
+            for d in self.TOPIC_DEPS.get(t, []) + [t]:
+                if d not in expanded:
+                    expanded.append(d)
+        topics = expanded
         files = sorted(set(self.TOPICS[t][0] for t in topics))
         relevant = set(f for t in topics for f in self.TOPICS[t][1])
         problems = []
